@@ -443,7 +443,7 @@ fn insert_into_block(p: &mut GProg, k: usize, pos_seed: usize, stmt: &str) -> Op
                     go(f, counter, k, pos_seed, stmt, depth + 1, out);
                 }
             }
-            Expr::Un(_, a) | Expr::Proj(a, _) | Expr::Field(a, _, _) | Expr::Go(a) | Expr::Closure(_, a) => {
+            Expr::Un(_, a) | Expr::Proj(a, _) | Expr::Field(a, _, _) | Expr::Go(a) | Expr::Closure(_, a) | Expr::Coerce(_, a) => {
                 go(a, counter, k, pos_seed, stmt, depth, out)
             }
             Expr::Bin(_, a, b) | Expr::While(a, b) => {
@@ -674,8 +674,13 @@ impl Check for C03 {
             let nblocks = count_blocks(&p).max(1);
             let k = md.below(nblocks);
             let pos = md.below(8);
-            let depth = insert_into_block(&mut p, k, pos, &stmt).unwrap_or(0);
+            // (a block the traversal cannot reach would leave the program unchanged: such a case is not judged)
+            let site = insert_into_block(&mut p, k, pos, &stmt).or_else(|| insert_into_block(&mut p, 0, pos, &stmt));
+            let depth = site.unwrap_or(0);
             let text = render(&p);
+            if site.is_none() || !text.contains(stmt.as_str()) {
+                return Case::new(json!({"text": text, "nosite": true, "labels": ["ill:no-injection-site"]}));
+            }
             return Case::new(json!({"text": text, "illtyped": kind, "injected": stmt, "depth": depth,
                 "labels": p.labels.iter().cloned().collect::<Vec<_>>()}));
         }
@@ -693,6 +698,9 @@ impl Check for C03 {
             .as_array()
             .map(|a| a.iter().filter_map(|x| x.as_str().map(|s| s.to_string())).collect())
             .unwrap_or_default();
+        if case.input.get("nosite").is_some() {
+            return CaseOut::discard("illtyped:no-injection-site");
+        }
         let res = goml::compile_single(ctx, text);
         if let Some(kind) = case.input["illtyped"].as_str() {
             labels.push(format!("ill:{kind}"));
